@@ -2,11 +2,11 @@
 # Development aid: run a check against a scratch worktree of /repo HEAD with a seeded patch applied, without
 # touching /repo (a long run may be using it). Works on a throw-away copy of /verif whose replace directives
 # point at the worktree. The registered commands and the committed evidence never come from here.
-# usage: lib/altrun.sh <patch.diff> <ID> [tier]
-patch=$(readlink -f "$1"); id=$2; tier=${3:-quick}
+# usage: lib/altrun.sh <patch.diff|none> <ID> [tier]   (none: the unchanged HEAD, e.g. for a thorough silence run while /repo is in use)
+patch=$1; [ "$patch" != none ] && patch=$(readlink -f "$1"); id=$2; tier=${3:-quick}
 wt=$(mktemp -d /tmp/altrepo.XXXXXX); d=$(mktemp -d /tmp/altverif.XXXXXX)
 git -C /repo worktree add -q --detach "$wt" HEAD || exit 2
-if ! git -C "$wt" apply "$patch"; then echo "PATCH-DOES-NOT-APPLY $patch"; git -C /repo worktree remove --force "$wt"; rm -rf "$d"; exit 3; fi
+if [ "$patch" != none ] && ! git -C "$wt" apply "$patch"; then echo "PATCH-DOES-NOT-APPLY $patch"; git -C /repo worktree remove --force "$wt"; rm -rf "$d"; exit 3; fi
 rsync -a --exclude .git --exclude .work --exclude replays --exclude evidence /verif/ "$d/"
 sed -i "s#=> /repo#=> $wt#" "$d/h23/go.mod" "$d/h26/go.mod"
 (cd "$d" && VERIF_SEED=${VERIF_SEED:-1} ./check "$id" "$tier" > "$d/out.log" 2>&1; echo "rc=$?" >> "$d/out.log")
